@@ -331,6 +331,108 @@ def memory_regions(res, prog):
                         res.violation('C02.6', 'C02.6|%s|%s' % ('mem64' if 'DESCRIPTOR64' in f.qual else 'mem', k), f, s_.get('line'), 'memory region field `%s` is %s; the descriptor says %s' % (k, (vals.get(k) or '?')[:200], w[:120]))
 
 
+def _places(node, out):
+    if isinstance(node, dict):
+        if isinstance(node.get('l'), int) and set(node) <= {'l', 'p'}:
+            out.append(node)
+            return
+        for v in node.values():
+            _places(v, out)
+    elif isinstance(node, list):
+        for v in node:
+            _places(v, out)
+
+
+def cpu_union(res, prog):
+    """C02.7: `CPU_INFORMATION.data` is a union of multi-byte fields kept as 24 undecoded bytes (format.rs says callers
+    must use Pread to derive the representation they want).  Every mention of that field is `&<..>.data` flowing, through
+    at most the unsizing cast, into the receiver of `pread_with(_, 0, endian)` - never a byte-wise copy, index or slice,
+    which would read the words in file order whatever the dump's byte order is.  (The Endian argument's provenance is
+    C02.1's business.)"""
+    res.rule('C02.7', 0, floor=2, note='the CPU union is only ever decoded through scroll with the dump\'s byte order')
+    for cn in harness.CRATES:
+        c = prog.crate(cn)
+        for f in c.fns:
+            if f.mac and f.mac.startswith('derive('):
+                continue
+            cpu_locals = set(l for l in range(len(f.locals)) if re.search(r'(^|[ &:])(minidump_common::)?format::CPU_INFORMATION$', f.local_ty(l) or ''))
+            hits = []
+            for b in sorted(f.reach):
+                for i, s_ in enumerate(f.blocks[b]['s']):
+                    ps = []
+                    _places(s_, ps)
+                    for p in ps:
+                        hits.append((b, i, s_, p))
+                t = f.blocks[b]['t']
+                ps = []
+                _places(t, ps)
+                for p in ps:
+                    hits.append((b, 't', t, p))
+            for b, i, node, p in hits:
+                proj = p.get('p') or []
+                if not proj:
+                    continue
+                fields = [e.get('n') for e in proj if isinstance(e, dict) and 'n' in e]
+                ok_shape = False
+                if len(fields) >= 2 and fields[-2:] == ['cpu', 'data'] and isinstance(proj[-1], dict) and proj[-1].get('n') == 'data':
+                    ok_shape = True
+                elif fields[-1:] == ['data'] and p['l'] in cpu_locals and len(fields) == 1:
+                    ok_shape = True
+                elif 'data' in fields and 'cpu' in fields and fields.index('data') == fields.index('cpu') + 1:
+                    # something below the union field (an index, a sub-slice): never a decode
+                    res.rule('C02.7', 1)
+                    res.violation('C02.7', 'C02.7|below', f, node.get('line'), 'the bytes of the CPU union are picked apart in place: %s' % show(f.place_tree(p))[:120])
+                    continue
+                if not ok_shape:
+                    continue
+                res.rule('C02.7', 1)
+                good = False
+                if i != 't' and node['k'] == 'assign' and node['rv']['k'] == 'ref' and node['rv']['p'] is p and not node['lhs'].get('p'):
+                    # follow the borrow: single-use temps through the unsizing cast to the receiver of pread_with
+                    good = _flows_to_pread(f, node['lhs']['l'])
+                if not good:
+                    res.violation('C02.7', 'C02.7|use', f, node.get('line'), 'the CPU union (`cpu.data`) is used other than as the receiver of pread_with(_, 0, endian): %s' % (show(f.rvalue_tree(node['rv'])) if i != 't' and node['k'] == 'assign' else show(f.call_tree(node)) if node.get('k') == 'call' else node.get('k'))[:140])
+
+
+def _flows_to_pread(f, l, depth=0):
+    """local `l` (a borrow of the union) is used exactly once: by an unsizing cast whose result is, in turn, used exactly once
+    as argument 0 of scroll::Pread::pread_with with offset 0"""
+    if depth > 3:
+        return False
+    uses = []
+    for b in sorted(f.reach):
+        for s_ in f.blocks[b]['s']:
+            ps = []
+            if s_['k'] == 'assign':
+                _places(s_['rv'], ps)
+            else:
+                _places(s_, ps)
+            if any(p['l'] == l for p in ps) and s_['k'] in ('assign',):
+                uses.append(('s', s_))
+        t = f.blocks[b]['t']
+        ps = []
+        _places({k: v for k, v in t.items() if k != 'dest'}, ps)
+        if any(p['l'] == l for p in ps):
+            uses.append(('t', t))
+    if len(uses) != 1:
+        return False
+    kind, n = uses[0]
+    if kind == 's':
+        if n['rv']['k'] == 'cast' and not n['lhs'].get('p'):
+            return _flows_to_pread(f, n['lhs']['l'], depth + 1)
+        if n['rv']['k'] in ('use', 'ref') and not n['lhs'].get('p'):
+            return _flows_to_pread(f, n['lhs']['l'], depth + 1)
+        return False
+    if n['k'] != 'call' or strip_generics(n.get('fn') or '') not in ('scroll::Pread::pread_with',):
+        return False
+    a0 = n['args'][0]
+    p0 = a0.get('m') or a0.get('c')
+    if not p0 or p0['l'] != l:
+        return False
+    off = f.expand(f.operand_tree(n['args'][1]))
+    return off == ('int', 0)
+
+
 def run(tier, t0):
     res = harness.Result(PID)
     prog = program()
@@ -341,6 +443,7 @@ def run(tier, t0):
     string_decoders(res, prog)
     default_context_reads(res, prog)
     memory_regions(res, prog)
+    cpu_union(res, prog)
     res.assumptions += [
         'scroll reads a field with the endianness it is given and derive(Pread)/derive(SizeWith) walk the same field list (trusted crate)',
         'field offsets and padding against the serializer, identifier derivation and memory contents are NOT decided (they relate values to values)',
